@@ -139,6 +139,89 @@ def flag_list_correspondence(ctx, n):
             ctx.mismatch('flag-list', {'ops': cases[i][0]}, cases[i][1:], 'model differs', '')
 
 
+def tracked_list_correspondence(ctx, n):
+    """TrackedList.v against the real Tracked / AsyncComparison: random histories of creating comparisons, subscribing to
+    them and setting the value, on a real Tracked under a stand-in loop, and through the Coq function `run`"""
+    import operator
+    import usim
+    from usim._core.loop import Interrupt
+    from usim._core.handler import __USIM_STATE__ as state
+    from harness.check import parse_nat_list
+    rng = ctx.rng
+    ME = object()
+    OPS = {'Lt': operator.lt, 'Le': operator.le, 'Eq': operator.eq, 'Ne': operator.ne, 'Ge': operator.ge, 'Gt': operator.gt}
+
+    class FakeLoop:
+        time = 0
+        activity = ME
+
+        def __init__(self):
+            self.log = []
+
+        def schedule(self, target, signal=None, *, delay=None, at=None):
+            if target is not ME:
+                self.log.append((target, signal))
+            if signal is not None:
+                signal.scheduled = True
+    cases = []
+    for _ in range(n):
+        v0 = rng.randint(0, 5)
+        loop, tracked = FakeLoop(), usim.Tracked(v0)
+        toks, cmps, ops = {}, [], []
+        with state.assign(loop):
+            for _ in range(rng.randint(0, 12)):
+                c = rng.random()
+                if c < 0.25 or not cmps:
+                    o, rhs = rng.choice(sorted(OPS)), rng.randint(0, 6)
+                    cmps.append(OPS[o](tracked, rhs))
+                    ops.append('New %s (%d)' % (o, rhs))
+                elif c < 0.65:
+                    k, w, t = rng.randrange(len(cmps)), rng.randint(1, 4), len(toks) + 1
+                    toks[t] = Interrupt(t)
+                    ops.append('Sub %d %d %d' % (k, w, t))
+                    cmps[k].__subscribe__(w, toks[t])
+                else:
+                    v = rng.randint(0, 6)
+                    ops.append('SetTo (%d)' % v)
+                    co = tracked.set(v)
+                    try:
+                        co.send(None)
+                    except StopIteration:
+                        pass
+                    co.close()
+        tid = {id(x): k for k, x in toks.items()}
+        sched = [(w, tid[id(sig)]) for w, sig in loop.log]
+        waits = [[(w, tid[id(sig)]) for w, sig in c._waiting] for c in cmps]
+        for c in cmps:
+            if bool(c) and c._waiting:
+                ctx.fail({'tracked_history': ops}, 'after %r the comparison %r holds but %d waiters are parked on it'
+                         % (ops, c, len(c._waiting)), family='tracked-list')
+            c._waiting.clear()
+        cases.append((v0, ops, tracked.value, sched, waits))
+
+    def pl(l):
+        return '[%s]' % '; '.join('(%d, %d)' % p for p in l)
+    text = ['From Coq Require Import ZArith List Arith Bool.', 'From Usim Require Import Tables TrackedList.', 'Import ListNotations.',
+            'Definition pdec (a b : nat * nat) : {a = b} + {a <> b}.\nProof. decide equality; apply Nat.eq_dec. Defined.',
+            'Definition same (s : tr) (v : Z) (sc : list sub) (ws : list (list sub)) : bool :=',
+            '  Z.eqb (value s) v && (if list_eq_dec pdec (scheduled s) sc then true else false) &&',
+            '  (if list_eq_dec (list_eq_dec pdec) (map c_wait (cmps s)) ws then true else false).',
+            'Definition bad : list nat := flat_map (fun x => x) [%s].' % ';\n  '.join(
+                '(if same (run (%d) [%s]%%Z) (%d) %s [%s] then [] else [%d])' % (
+                    v0, '; '.join(o), v, pl(sc), '; '.join(pl(w) for w in ws), i)
+                for i, (v0, o, v, sc, ws) in enumerate(cases)),
+            'Eval vm_compute in bad.']
+    path = ctx.write_case_file('tracked_list', '\n'.join(text) + '\n')
+    rc, out = ctx.run_case_files([path])[path]
+    bad = parse_nat_list(out) if rc == 0 else None
+    ctx.bump('family:tracked-list-correspondence', n)
+    if bad is None:
+        ctx.mismatch('tracked-list', None, None, None, 'case file did not evaluate: %s' % out[-400:])
+    else:
+        for i in bad:
+            ctx.mismatch('tracked-list', {'start': cases[i][0], 'ops': cases[i][1]}, cases[i][2:], 'model differs', '')
+
+
 def resource_waiters(ctx, n):
     """directed family (direct API): activities await resource-level comparisons (`res >= {..}`, `res <= {..}`, connectives
     of them) while the levels change through EVERY route: borrow/claim blocks left normally, by an exception, by a cancel, by
@@ -321,6 +404,7 @@ def run(ctx):
     C01.reused_conditions(ctx, ctx.n(20, 300))
     resource_waiters(ctx, ctx.n(40, 600))
     flag_list_correspondence(ctx, ctx.n(300, 3000))
+    tracked_list_correspondence(ctx, ctx.n(300, 3000))
     resource_comparisons(ctx)
 
 
